@@ -718,6 +718,14 @@ def run(ck: core.Check, prove: bool = True):
                             mismatch("bridge: build_valid_mainClean instance (main-clean build not accepted by validG)", ap, None, None)
                         if m.get("leak_free") and not m["main_clean"]:
                             stats["leak_free_but_not_main_clean"] = stats.get("leak_free_but_not_main_clean", 0) + 1
+                    # the instance of build_valid_lexical_checked: WFb, lexicalB (the program alone), build ok ==> validG
+                    if m.get("lexical") is not None:
+                        stats["lexical_checked"] = stats.get("lexical_checked", 0) + 1
+                        stats["lexical"] = stats.get("lexical", 0) + int(bool(m["lexical"]))
+                        if m.get("wf") and m["lexical"] and not m.get("bridge_valid"):
+                            mismatch("bridge: build_valid_lexical instance (lexical program built but not accepted by validG)", ap, None, None)
+                        if m.get("leak_free") and not m["lexical"]:
+                            stats["leak_free_but_not_lexical"] = stats.get("leak_free_but_not_lexical", 0) + 1
                     if m.get("bridge_valid") and not m.get("leak_free"):
                         mismatch("bridge: accepted emission is not leak-free", ap, None, None)
                     if bool(m.get("bridge_valid")) != bool(m.get("struct_ok")):
